@@ -230,7 +230,11 @@ func (s *c03State) confirm(toks []model.Tok, ast *model.Node, tight, base, want 
 		}
 		if !ok {
 			atomic.AddInt64(&s.shapeConfirmed, 1)
-			s.r.Report(harness.Violation{Kind: "wrong-value", Signature: "grouping:" + tight,
+			sig := "grouping:" + tight
+			if alt, _, aerr := model.ParseDeFacto(toks); aerr == nil && model.Render(alt) == base {
+				sig = "dotstar-scope:" + tight // the known irregularity of "X.*" and nothing else
+			}
+			s.r.Report(harness.Violation{Kind: "wrong-value", Signature: sig,
 				Input:    map[string]interface{}{"expression": tight, "document": d, "canonical_grouping": want, "implementation_grouping": base},
 				Expected: outcomesDesc(outs), Observed: showRes(res, serr), GoTest: goTest(tight, d, outcomesDesc(outs))})
 			return
@@ -240,7 +244,7 @@ func (s *c03State) confirm(toks []model.Tok, ast *model.Node, tight, base, want 
 }
 
 func checkC03(r *harness.Run) harness.Coverage {
-	r.Rule = "(a) every grammatical token sequence up to the blind length bound over one spelling per token kind; (b) every sentence of the operator fragment (all operators over single-letter leaves) up to the structural weight bound. For each: three whitespace styles (same AST render, intended token sequence), every insertion of one parenthesis pair around any AST-node span and all of them at once, every deletion of an existing pair — a variant is meaning-preserving iff the canonical parser P gives the same AST, and then the implementation must give the same AST for both; the implementation AST is compared with the canonical AST and a difference must be confirmed by a distinguishing document before it is reported. Non-trivial = sentence with at least one operator pair; distinct by token sequence"
+	r.Rule = "(a) every grammatical token sequence up to the blind length bound over one spelling per token kind; (b) every sentence of the operator fragment (all operators over single-letter leaves) up to the structural weight bound; (c) every postfix chain (dot, index, slice, [*], .*, [], filters, with | and || as terminators) up to a larger weight bound. For each: three whitespace styles (same AST render, intended token sequence), every insertion of one parenthesis pair around any AST-node span and all of them at once, every deletion of an existing pair — a variant is meaning-preserving iff the canonical parser P gives the same AST, and then the implementation must give the same AST for both; the implementation AST is compared with the canonical AST and a difference must be confirmed by a distinguishing document before it is reported. Non-trivial = sentence with at least one operator pair; distinct by token sequence"
 	r.Assumptions = []string{"canonical precedence data: model/parser.go (published JMESPath binding powers), cross-checked with G and grounded on the compliance corpus", "equal parse implies equal result on every document (the interpreter is a function of the AST)", "de-facto irregularities G10 (X.*.Y.Z, filter after filter) are part of the canonical rules"}
 	blindN, opsW := 4, 5
 	if r.Thorough() {
@@ -283,6 +287,21 @@ func checkC03(r *harness.Run) harness.Coverage {
 			}
 		}
 	}
+	// long postfix chains: where projection scope is decided
+	chainW := 7
+	if r.Thorough() {
+		chainW = 8
+	}
+	gch := univ.NewGen(univ.ChainFragment())
+	doneChain := 0
+	for w := 1; w <= chainW; w++ {
+		if r.OverBudget() {
+			break
+		}
+		ss := gch.Sentences(w)
+		harness.Parallel(len(ss), func(wk, i int) { s.one(gch.Tokens(ss[i])) })
+		doneChain = w
+	}
 	r.Evaluations = s.sentences + s.variants + s.styleChecks
 	r.Traces = s.sentences + s.preserved + s.styleChecks
 	r.States = s.sentences
@@ -295,6 +314,6 @@ func checkC03(r *harness.Run) harness.Coverage {
 	r.Note("whitespace_style_checks", s.styleChecks)
 	r.Note("shape_only_difference", s.shapeOnly)
 	r.Note("shape_difference_confirmed", s.shapeConfirmed)
-	return harness.Coverage{Exhaustive: doneBlind == blindN && doneOps == opsW,
-		Bounds: map[string]interface{}{"blind_tokens": doneBlind, "operator_fragment_weight": doneOps}, Outcomes: 2}
+	return harness.Coverage{Exhaustive: doneBlind == blindN && doneOps == opsW && doneChain == chainW,
+		Bounds: map[string]interface{}{"blind_tokens": doneBlind, "operator_fragment_weight": doneOps, "postfix_chain_weight": doneChain}, Outcomes: 2}
 }
